@@ -19,7 +19,16 @@ def run(stuffing, abort, chunks):
     reader = hdlc.HdlcFrameReader(use_octet_stuffing=stuffing, use_abort_sequence=abort)
     out = []
     kept = []  # the list objects handed out by read(), with a snapshot taken at return time
-    for ch in chunks:
+    from vlib import fakeclock
+
+    gaps = fakeclock.gaps_for(len(chunks), ("none", "mixed", "long")[len(chunks) % 3], len(chunks)) if 1 < len(chunks) <= 5000 else [0.0] * len(chunks)
+    with fakeclock.FakeClock() as clk:
+        return _run_clocked(reader, chunks, gaps, clk, out, kept)
+
+
+def _run_clocked(reader, chunks, gaps, clk, out, kept):
+    for ch, gap in zip(chunks, gaps):
+        clk.advance(gap)  # virtual seconds pass between the calls of a split run: the result must not depend on timing
         lst = guarded(reader.read, ch, what="HdlcFrameReader.read")
         snap = [(guarded(lambda: fr.as_bytes), bool(guarded(lambda: fr.is_valid)), guarded(lambda: fr.payload)) for fr in lst]
         kept.append((lst, snap))
